@@ -2,6 +2,7 @@
 // its outputs, its atom ids, and every low-level block the assembly consumes
 // (obtained from the integrator's own engine with its own shells/ECPs).
 #include "vh.hpp"
+#include "verif_hooks.hpp"
 using namespace vh;
 
 static void setup(ECPIntegrator& I, const Case& c) {
@@ -26,6 +27,8 @@ int main(int argc, char** argv) {
   FILE* f = std::fopen(argv[2], "w");
   for (auto& c : cases) {
     int order = (int)c.geti("order", 0);
+    verif::ctl() = verif::Ctl();
+    verif::ctl().no_screen = c.geti("noscreen", 0) == 1; verif::ctl().no_screen_api = c.geti("noscreen", 0) == 2;
     ECPIntegrator I; setup(I, c); I.init(order);
     I.compute_integrals();
     if (order > 0) I.compute_first_derivs();
@@ -73,6 +76,7 @@ int main(int argc, char** argv) {
       }
     }
     std::fprintf(f, "end\n");
+    verif::ctl() = verif::Ctl();
   }
   std::fclose(f);
   return 0;
